@@ -167,7 +167,7 @@ func Mutate(t *rapid.T, root **rc.M, o MutOpts) (Mutation, bool) {
 	si := rapid.IntRange(0, len(slots)-1).Draw(t, "slot")
 	s := slots[si]
 	x := s.Get()
-	nops := 17
+	nops := 18
 	op := rapid.IntRange(0, nops).Draw(t, "op")
 	if o.Gentle {
 		// two thirds of the draws go to the gentle operators
@@ -465,6 +465,41 @@ func Mutate(t *rapid.T, root **rc.M, o MutOpts) (Mutation, bool) {
 		}
 		s.Set(y)
 		mut.Op = fmt.Sprintf("major-%d-to-%d", x.Major, nm)
+		return mut, true
+	case 17: // IV in one bucket and Partial IV in the other bucket of one layer
+		if x.Major != 4 || len(x.Items) < 3 || x.Items[0].Major != 2 || x.Items[1].Major != 5 {
+			return mut, false
+		}
+		p, u := x.Items[0], x.Items[1]
+		if p.Emb == nil {
+			if len(p.Bytes) != 0 {
+				return mut, false
+			}
+			p.Emb = &rc.M{Major: 5}
+		}
+		if p.Emb.Major != 5 {
+			return mut, false
+		}
+		a, b := uint64(5), uint64(6)
+		if rapid.Bool().Draw(t, "iv-swap") {
+			a, b = b, a
+		}
+		drop := func(m *rc.M) {
+			for i := 0; i < len(m.Keys); i++ {
+				if m.Keys[i].Major == 0 && (m.Keys[i].Arg == 5 || m.Keys[i].Arg == 6) {
+					m.Keys = append(m.Keys[:i:i], m.Keys[i+1:]...)
+					m.Vals = append(m.Vals[:i:i], m.Vals[i+1:]...)
+					i--
+				}
+			}
+		}
+		drop(p.Emb)
+		drop(u)
+		p.Emb.Keys = append(p.Emb.Keys, mleaf(0, a))
+		p.Emb.Vals = append(p.Emb.Vals, mbytes([]byte{1}))
+		u.Keys = append(u.Keys, mleaf(0, b))
+		u.Vals = append(u.Vals, mbytes([]byte{2}))
+		mut.Op = "iv-and-partial-iv-across-buckets"
 		return mut, true
 	default: // replace a map key by an out-of-range or non-label key
 		if x.Major != 5 || len(x.Keys) == 0 {
